@@ -1,6 +1,7 @@
 package hwal
 
 import (
+	"bytes"
 	"math"
 
 	"github.com/hashicorp/raft"
@@ -180,7 +181,9 @@ func HarnessStable() {
 }
 
 // HarnessMetrics (C20, dynamic half): with the bundled AtomicCollector (which
-// panics on an undeclared name) the counters equal the model's totals.
+// panics on an undeclared name) the counters equal the model's totals: calls,
+// entries and encoded bytes appended, entries and encoded bytes read, stable
+// gets/sets, rotations, head/tail truncation counts.
 func HarnessMetrics() {
 	K := vrt.Param("K", 3)
 	e := newEnv(vrt.Param("seg", 100))
@@ -192,14 +195,54 @@ func HarnessMetrics() {
 	}
 	m := &model{}
 	B := uint64(vrt.Param("B", 1))
-	var appends, entries, headTr, tailTr, reads, sets, gets uint64
+	maxData := vrt.Param("maxdata", 1)
+	var appends, entries, headTr, tailTr, reads, sets, gets, bytesW, bytesR, rotations uint64
+	encLen := map[uint64]uint64{} // index -> encoded size of the entry now stored there
+	codec := &wal.BinaryCodec{}
 	for k := 0; k < K; k++ {
 		switch vrt.Choice("op", 5) {
 		case 0:
 			n := 1 + vrt.Choice("batch", 2)
-			if err := appendN(e, m, B, n, 0); err == nil {
+			next := B
+			if !m.empty() {
+				next = m.last() + 1
+			}
+			var logs []*raft.Log
+			var ents []ent
+			var sizes []uint64
+			for i := 0; i < n; i++ {
+				d := 0
+				if i == 0 {
+					d = maxData
+				}
+				l, en := mkLog(next+uint64(i), d)
+				var buf bytes.Buffer
+				vrt.Assert("C20.encode-ok", codec.Encode(l, &buf) == nil)
+				logs, ents, sizes = append(logs, l), append(ents, en), append(sizes, uint64(buf.Len()))
+			}
+			// a rotation is observed through the metadata: a new segment ID was handed out for a
+			// new tail (the first append into an empty log at another index re-creates the empty
+			// tail: that is a new ID but no rotation)
+			idsBefore := e.Meta.State.NextSegmentID
+			reset := m.empty() && len(e.Meta.State.Segments) > 0 && e.Meta.State.Segments[len(e.Meta.State.Segments)-1].BaseIndex != next
+			err := e.L.StoreLogs(logs)
+			vrt.Quiesce()
+			if err == nil {
+				if m.empty() {
+					m.First = next
+				}
+				m.Ents = append(m.Ents, ents...)
 				appends++
 				entries += uint64(n)
+				for i, sz := range sizes {
+					bytesW += sz
+					encLen[next+uint64(i)] = sz
+				}
+				created := e.Meta.State.NextSegmentID - idsBefore
+				if reset {
+					created--
+				}
+				rotations += created
 			} else {
 				vrt.Assert("C20.append-ok", false)
 			}
@@ -220,8 +263,18 @@ func HarnessMetrics() {
 			}
 		case 2:
 			var out raft.Log
-			e.L.GetLog(vrt.U64("i"), &out)
+			i := vrt.U64("i")
+			if m.has(i) {
+				i = vrt.Concrete("read.index", i)
+			}
+			err := e.L.GetLog(i, &out)
 			reads++
+			if err == nil {
+				vrt.Assert("C20.read-ok-only-inside-the-log", m.has(i))
+				bytesR += encLen[i]
+			} else {
+				vrt.Assert("C20.read-fails-only-outside-the-log", !m.has(i))
+			}
 		case 3:
 			e.L.Set([]byte("k"), []byte("v"))
 			sets++
@@ -234,7 +287,10 @@ func HarnessMetrics() {
 	s := e.MC.Summary()
 	vrt.Assert("C20.log_appends", s.Counters["log_appends"] == appends)
 	vrt.Assert("C20.log_entries_written", s.Counters["log_entries_written"] == entries)
+	vrt.Assert("C20.log_entry_bytes_written", s.Counters["log_entry_bytes_written"] == bytesW)
 	vrt.Assert("C20.log_entries_read", s.Counters["log_entries_read"] == reads)
+	vrt.Assert("C20.log_entry_bytes_read", s.Counters["log_entry_bytes_read"] == bytesR)
+	vrt.Assert("C20.segment_rotations", s.Counters["segment_rotations"] == rotations)
 	vrt.Assert("C20.stable_sets", s.Counters["stable_sets"] == sets)
 	vrt.Assert("C20.stable_gets", s.Counters["stable_gets"] == gets)
 	vrt.Assert("C20.head_truncations", s.Counters["head_truncations"] == headTr)
@@ -389,6 +445,10 @@ func HarnessFault() {
 	if matched >= 0 {
 		// every acknowledged entry must be there unless a (failed but applied) truncation removed it
 		probe("C10.reopen", e2.L, &cands[matched], vrt.U64("probe2"))
+		if vrt.Param("audit", 0) == 1 {
+			// C09: whatever the failures left behind, what recovery settled on is a README-conformant image
+			auditSegments("C09.audit", e2.FS, e2.Meta, &cands[matched])
+		}
 	}
 	vrt.Reach("fault-checked")
 }
